@@ -20,6 +20,10 @@ type IngSpec struct {
 	Spare     int64 `json:"spare,omitempty"`
 	RcvBuf    int   `json:"rcvbuf,omitempty"`
 	NoRawConn bool  `json:"no_rawconn,omitempty"` // portable reader/sender instead of recvmmsg/sendmmsg
+	TCP       bool  `json:"tcp,omitempty"`        // also start the owned TCP listener
+	TCPConns  int   `json:"tcp_conns,omitempty"`
+	TCPSmall  int   `json:"tcp_small,omitempty"`
+	TCPLarge  int   `json:"tcp_large,omitempty"`
 }
 
 // Ing is W-res plus the real UDP listener/engine over a simulated kernel.
@@ -27,6 +31,7 @@ type Ing struct {
 	*Res
 	K      *simsock.Kernel
 	L      server.Listener
+	TL     server.Listener // TCP listener (nil unless IngSpec.TCP)
 	Local  netip.AddrPort
 	cancel context.CancelFunc
 }
@@ -56,6 +61,18 @@ func NewIng(spec *Spec, ing IngSpec, seed uint64, tr *kit.Trace) (*Ing, error) {
 		return nil, err
 	}
 	go func() { _ = l.Serve(ctx) }()
+	if ing.TCP {
+		if ing.TCPConns <= 0 {
+			ing.TCPConns = 64
+		}
+		tl := server.VerifTCPListener(r.Srv, local.String(), ing.TCPConns, ing.TCPSmall, ing.TCPLarge)
+		if err := tl.Bind(ctx); err != nil {
+			g.Close()
+			return nil, err
+		}
+		g.TL = tl
+		go func() { _ = tl.Serve(ctx) }()
+	}
 	kit.Settle()
 	return g, nil
 }
@@ -65,11 +82,22 @@ func (g *Ing) Send(sock int, from netip.AddrPort, raw []byte) bool {
 	return g.K.Deliver(sock, from, raw)
 }
 
-// Shutdown drains and stops the listener (the listener-scope barrier).
+// Shutdown drains and stops the listeners (the listener-scope barrier).
 func (g *Ing) Shutdown() error {
 	ctx, cancel := context.WithTimeout(context.Background(), 30*time.Second)
 	defer cancel()
-	return g.L.Shutdown(ctx)
+	err := g.L.Shutdown(ctx)
+	if g.TL != nil {
+		if e := g.TL.Shutdown(ctx); err == nil {
+			err = e
+		}
+	}
+	return err
+}
+
+// DialTCP opens a client connection to the TCP listener.
+func (g *Ing) DialTCP(from netip.AddrPort, window int) *simsock.StreamConn {
+	return g.K.TCP.Dial(from, window)
 }
 
 func (g *Ing) Close() {
